@@ -1,5 +1,5 @@
 import Clikit.Model.Markup
-import Clikit.Lemmas.Style
+import Clikit.Lemmas.C11Style
 /-!
 Lemmas about the style-stack run of pastel's tag machine (C11), and the notion of a balanced
 token list the property statement speaks about.
